@@ -9,29 +9,35 @@
 EXTENDS Integers, Sequences, TLC, Json
 
 B == {"A", "C"}
-VARIABLES v, f, a, stage, err
-vars == <<v, f, a, stage, err>>
+(* v2: REF of an optional SECOND row of the SNV file at the same position (another ALT allele listed on its own   *)
+(* line); the rows are merged into one multi-allelic variant and their REF bases are one more source.            *)
+VARIABLES v, v2, f, a, stage, err
+vars == <<v, v2, f, a, stage, err>>
 
-Init == /\ v \in B /\ f \in B /\ a \in B \cup {"none"}
+Init == /\ v \in B /\ v2 \in B \cup {"none"} /\ f \in B /\ a \in B \cup {"none"}
         /\ stage = "start" /\ err = "no"
-ValidateLocus == /\ stage = "start"
+MergeRows == /\ stage = "start"
+             /\ IF v2 # "none" /\ v2 # v THEN stage' = "failed" /\ err' = "snvfile-rows-disagree"
+                ELSE stage' = "merged" /\ err' = err
+             /\ UNCHANGED <<v, v2, f, a>>
+ValidateLocus == /\ stage = "merged"
                  /\ IF v # f THEN stage' = "failed" /\ err' = "snvfile-vs-fasta"
                     ELSE stage' = "locus" /\ err' = err
-                 /\ UNCHANGED <<v, f, a>>
+                 /\ UNCHANGED <<v, v2, f, a>>
 ReadCheck == /\ stage = "locus"
              /\ IF a # "none" /\ a # v THEN stage' = "failed" /\ err' = "snvfile-vs-alignment"
                 ELSE stage' = "used" /\ err' = err
-             /\ UNCHANGED <<v, f, a>>
-Next == ValidateLocus \/ ReadCheck
+             /\ UNCHANGED <<v, v2, f, a>>
+Next == MergeRows \/ ValidateLocus \/ ReadCheck
 Spec == Init /\ [][Next]_vars
 
 (* the base is used only if all available sources agree *)
-NeverSilentlyUsed == stage = "used" => (v = f /\ (a = "none" \/ (a = v /\ a = f)))
+NeverSilentlyUsed == stage = "used" => (v = f /\ (v2 = "none" \/ v2 = f) /\ (a = "none" \/ (a = v /\ a = f)))
 (* and any disagreement ends in an error *)
 Terminal == stage \in {"used", "failed"}
-DisagreementFails == (Terminal /\ (v # f \/ (a # "none" /\ (a # v \/ a # f)))) => stage = "failed"
+DisagreementFails == (Terminal /\ (v # f \/ (v2 # "none" /\ v2 # f) \/ (a # "none" /\ (a # v \/ a # f)))) => stage = "failed"
 MutIgnoreFasta == stage = "used" => (a = "none" \/ a = v)   \* (holds; listed for contrast)
 MutSilent == stage # "failed"                               \* mutant: must be violated
 
-Dump == Terminal => PrintT(<<"@@J", ToJson([v |-> v, f |-> f, a |-> a, fails |-> stage = "failed", err |-> err])>>)
+Dump == Terminal => PrintT(<<"@@J", ToJson([v |-> v, v2 |-> v2, f |-> f, a |-> a, fails |-> stage = "failed", err |-> err])>>)
 =============================================================================
